@@ -11,8 +11,7 @@ from . import SRC, native
 _cache = {}
 
 
-class SourceError(Exception):
-    pass
+from .source_derive import SourceError  # noqa: E402
 
 
 def read(relpath):
@@ -48,6 +47,7 @@ def _find(body, parts):
 def get_def(target):
     """target: 'repo:<relpath>:<Qual.name>' | 'runtime:<Qual.name>' | 'abstract:<Qual.name>'
     returns (node, source_text_of_module)."""
+    target, _, derived = target.partition('#')
     kind, _, rest = target.partition(':')
     if kind == 'repo':
         relpath, _, qual = rest.partition(':')
@@ -63,11 +63,16 @@ def get_def(target):
         raise SourceError(f'bad target {target}')
     if node is None:
         raise SourceError(f'{target}: definition not found')
+    if derived:
+        node = derive(node, derived)
     return node, text
 
 
+from .source_derive import derive  # noqa: E402
+
+
 def segment(target):
-    node, text = get_def(target)
+    node, text = get_def(target.partition('#')[0])
     return ast.get_source_segment(text, node)
 
 
